@@ -21,4 +21,10 @@ package affiliation
 
 //@ func computeAfflitiationCacheKey
 //@ prop C09
-//@ ensures key-is-the-pair-of-names (and (= result.ImplementedID (call getFullyQualifiedName (iface *types.Named concreteObj))) (= result.DeclaredID (call getFullyQualifiedName (iface *types.Interface interfaceObj))))
+//@ -- a NAMED interface is identified by its own qualified name - not by a name derived from one of its methods, which
+//@ -- names the interface that declares the method (an embedded one; defect F24: `type J interface { I; Zed() }` shared
+//@ -- the key of I and the pair (S, J) was taken for already analysed)
+//@ method go/types.Type Underlying fn
+//@ ensures key-is-the-pair-of-names (and (= result.ImplementedID (call getFullyQualifiedName (iface *types.Named concreteObj)))
+//@    (=> (is declaredType *types.Named) (= result.DeclaredID (namedFullString (as declaredType *types.Named))))
+//@    (=> (and (not (is declaredType *types.Named)) (not (is declaredType *types.Alias))) (= result.DeclaredID (call getFullyQualifiedName (iface *types.Interface interfaceObj)))))
